@@ -6,6 +6,7 @@ verus! {
 //@@ item src/storage/commands/executor.rs ListCommand
 //@@ item src/storage/commands/executor.rs SetCommand
 //@@ item src/storage/commands/executor.rs HashCommand
+//@@ item src/storage/commands/executor.rs KeyCommand
 //@@ include contracts/inc_set_grammar.rs
 
 // C12, parity clause: "redis.call / redis.pcall of a command have the same effect on the dataset and return the same reply ... as
@@ -331,6 +332,23 @@ impl CommandParser {
             (frames@.len() != 3 || arg(frames@, 1) is None || arg(frames@, 2) is None) ==> r is Err,
             frames@.len() == 3 && arg(frames@, 1) is Some && arg(frames@, 2) is Some ==>
                 (r matches Ok(HashCommand::HExists { key, field }) && key@ == arg(frames@, 1)->Some_0 && field@ == arg(frames@, 2)->Some_0),
+//@@ body
+//@@ end
+
+//@@ unit parse_ttl fn src/storage/commands/executor.rs CommandParser::parse_ttl
+    fn parse_ttl(frames: &[RespFrame]) -> (r: Result<KeyCommand>)
+        ensures
+            (frames@.len() != 2 || arg(frames@, 1) is None) ==> r is Err,
+            frames@.len() == 2 && arg(frames@, 1) is Some ==> (r matches Ok(KeyCommand::Ttl { key }) && key@ == arg(frames@, 1)->Some_0),
+//@@ body
+//@@ end
+
+//@@ unit parse_renamenx fn src/storage/commands/executor.rs CommandParser::parse_renamenx
+    fn parse_renamenx(frames: &[RespFrame]) -> (r: Result<KeyCommand>)
+        ensures
+            (frames@.len() != 3 || arg(frames@, 1) is None || arg(frames@, 2) is None) ==> r is Err,
+            frames@.len() == 3 && arg(frames@, 1) is Some && arg(frames@, 2) is Some ==>
+                (r matches Ok(KeyCommand::RenameNx { old_key, new_key }) && old_key@ == arg(frames@, 1)->Some_0 && new_key@ == arg(frames@, 2)->Some_0),
 //@@ body
 //@@ end
 
